@@ -221,12 +221,25 @@ Definition terminalb (tg : list index) (st : state) : bool :=
    tensors, the order of the factors and delta^2 = delta) ---------- *)
 Fixpoint has_dup (l : list index) : bool :=
   match l with [] => false | x :: r => imem x r || has_dup r end.
+(* the constructors of AntiSymmetricTensor / Amplitude return 0 when an index
+   is repeated in the upper or in the lower group (Pauli), and when the tensor
+   is bra-ket antisymmetric and its sorted upper and lower tuples coincide
+   (d^X_X = - d^X_X) *)
 Definition tens_pauli_zero (t : tens) : bool :=
   match inner_sym (tkind t) with
   | Some true => has_dup (tupper t) || has_dup (tlower t)
   | _ => false end.
+Definition tens_diag_zero (t : tens) : bool :=
+  match inner_sym (tkind t) with
+  | Some true => Z.eqb (tbks t) (-1) &&
+                 idxl_eqb (snd (sort_par (tupper t))) (snd (sort_par (tlower t)))
+  | _ => false end.
+Definition tens_zero (t : tens) : bool := tens_pauli_zero t || tens_diag_zero t.
 Definition fac_pauli_zero (f : factor) : bool :=
-  match fst f with ATens t => tens_pauli_zero t | _ => false end.
+  match fst f with ATens t => tens_zero t | _ => false end.
+(* a factor (not inverted) whose value is 0 in every model respecting the symmetries *)
+Definition fac_zero (f : factor) : bool :=
+  match f with (ATens t, false) => tens_zero t | _ => false end.
 Definition fac_is_delta (f : factor) : bool :=
   match f with (ADelta _ _, false) => true | _ => false end.
 Fixpoint dedup_deltas (fs : list factor) : list factor :=      (* on a sorted list *)
@@ -320,7 +333,8 @@ Definition same_val (tgs : list index) (a b : option state) : bool :=
     let (kx, qx) := term_key tgs (dd_term x) in
     let (ky, qy) := term_key tgs (dd_term y) in
     key_eqb kx ky && Qeq_bool qx qy
-  | _, _ => false
+  | Some x, None => existsb fac_zero (objs_facs (sobjs x))   (* the constructor returned 0 *)
+  | None, Some _ => false
   end.
 Definition inclb (a b : list index) : bool := forallb (fun x => imem x b) a.
 (* [obs]: the expressions the implementation produced after each loop body
